@@ -146,7 +146,7 @@ theorem addMid_spec {cap : Nat} (A Mi Rr y : Limbs) (oA : LimbsOk A) (oM : Limbs
   have hl' : (A ++ r.1 ++ Rr).length = (A ++ (Mi ++ Rr)).length := by simp [e2, hm]
   have hv' : valL (A ++ r.1 ++ Rr) + B64 ^ (y.length + A.length) * r.2 =
       valL (A ++ (Mi ++ Rr)) + B64 ^ A.length * valL y := by
-    rw [List.append_assoc, valL_append' A, valL_append' r.1, valL_append' A, valL_append' Mi, e2, hm, Nat.pow_add]
+    rw [List.append_assoc, valL_append_pow A, valL_append_pow r.1, valL_append_pow A, valL_append_pow Mi, e2, hm, Nat.pow_add]
     generalize B64 ^ A.length = Ba at *
     generalize B64 ^ y.length = By at *
     have a1 : Ba * (valL r.1 + By * r.2) = Ba * (valL Mi + valL y) := by rw [e1]
@@ -193,7 +193,7 @@ theorem largeAddFromL_spec {cap : Nat} {x y : Limbs} (ox : LimbsOk x) (oy : Limb
       · rename_i g2
         injection h with h; subst h
         refine ⟨limbsOk_append.mpr ⟨ox, fun l hl => by rw [List.eq_of_mem_replicate hl]; exact B64_pos⟩, ?_, ?_, ?_, ?_⟩
-        · rw [valL_append']
+        · rw [valL_append_pow]
           have : valL (List.replicate (y.length + start - x.length) 0) = 0 := by
             have := valL_zeros_append (y.length + start - x.length) []
             simpa [valL] using this
